@@ -3,6 +3,7 @@ package descgen
 import (
 	"fmt"
 	"math/rand"
+	"sort"
 	"strings"
 
 	"verif/internal/ir"
@@ -470,6 +471,37 @@ func randFieldOptions(r *rand.Rand, f *ir.File, c *ir.Config) {
 				break
 			}
 		}
+	}
+	// extras, drawn last so that the draws above stay what they were
+	if r.Intn(3) == 0 {
+		// an explicit empty validators list under ONE full path of a field configured by its Message.Field key
+		var ks []string
+		for k := range c.Validators {
+			ks = append(ks, k)
+		}
+		sort.Strings(ks)
+	outer:
+		for _, k := range ks {
+			for _, o := range occ {
+				if o.Key == k && o.Path != k {
+					if _, dup := c.Validators[o.Path]; !dup {
+						c.Validators[o.Path] = []string{}
+						break outer
+					}
+				}
+			}
+		}
+	}
+	if c.InjectedFields != nil && r.Intn(2) == 0 {
+		// several injected attributes under one key (their order in the list is immaterial)
+		var ks []string
+		for k := range c.InjectedFields {
+			ks = append(ks, k)
+		}
+		sort.Strings(ks)
+		k := ks[0]
+		c.InjectedFields[k] = append(c.InjectedFields[k], ir.Injected{Name: "injected_rank", Type: "github.com/hashicorp/terraform-plugin-framework/types.Int64Type", Optional: true},
+			ir.Injected{Name: "injected_flag", Type: "github.com/hashicorp/terraform-plugin-framework/types.BoolType", Optional: true, Computed: true})
 	}
 }
 
